@@ -58,3 +58,16 @@ func addr(base *big.Int, step *big.Int, idx int64) string {
 }
 
 func itoa(i int) string { return fmt.Sprintf("%d", i) }
+
+func bigInt(v int64) *big.Int { return big.NewInt(v) }
+
+// sampleSeqs returns n random sequences of exactly length l over alpha.
+func sampleSeqs(r *vh.Rng, alpha []Op, l, n int, f func([]Op)) {
+	for i := 0; i < n; i++ {
+		ops := make([]Op, l)
+		for j := range ops {
+			ops[j] = alpha[r.Intn(len(alpha))]
+		}
+		f(ops)
+	}
+}
